@@ -19,6 +19,31 @@ type TCPPeer struct {
 	buf  []byte
 	eof  bool
 	done chan struct{}
+	// stalling: the peer stops reading (its receive window is full), so the connection's next Write blocks
+	stalled bool
+	resume  chan struct{}
+}
+
+// Stall makes the peer stop reading until Resume or Close.
+func (p *TCPPeer) Stall() {
+	p.mu.Lock()
+	p.stalled = true
+	if p.resume == nil {
+		p.resume = make(chan struct{})
+	}
+	p.mu.Unlock()
+	_ = p.Conn.SetReadDeadline(time.Now()) // wake the collector out of its Read
+}
+
+// Resume lets a stalled peer read again.
+func (p *TCPPeer) Resume() {
+	p.mu.Lock()
+	if p.stalled {
+		p.stalled = false
+		close(p.resume)
+		p.resume = nil
+	}
+	p.mu.Unlock()
 }
 
 func (p *TCPPeer) reader() {
@@ -28,6 +53,13 @@ func (p *TCPPeer) reader() {
 		n, err := p.Conn.Read(b)
 		p.mu.Lock()
 		p.buf = append(p.buf, b[:n]...)
+		if err != nil && p.stalled {
+			ch := p.resume
+			p.mu.Unlock()
+			<-ch
+			_ = p.Conn.SetReadDeadline(time.Time{})
+			continue
+		}
 		if err != nil {
 			p.eof = true
 			p.mu.Unlock()
@@ -72,7 +104,7 @@ func (p *TCPPeer) EOF() bool { p.mu.Lock(); defer p.mu.Unlock(); return p.eof }
 func (p *TCPPeer) Write(b []byte) error { _, err := p.Conn.Write(b); return err }
 
 // Close closes the peer side and waits for the collector goroutine.
-func (p *TCPPeer) Close() { _ = p.Conn.Close(); <-p.done }
+func (p *TCPPeer) Close() { _ = p.Conn.Close(); p.Resume(); <-p.done }
 
 type cfgMutator func(cfg *client.Config)
 
